@@ -379,6 +379,10 @@ void cstl_array_alloc(cstl_array_t * const a,
     struct cstl_raw_array * ra;
 
     cstl_array_reset(a);
+    if (sz != 0 && nm > (SIZE_MAX - sizeof(*ra)) / sz) {
+        /* the size of the array in bytes is not representable */
+        return;
+    }
     cstl_shared_ptr_alloc(&a->ptr, sizeof(*ra) + nm * sz, NULL);
 
     ra = cstl_shared_ptr_get(&a->ptr);
